@@ -261,6 +261,9 @@ func merge4Stream(n int, any bool) {
 		} else {
 			patch = []byte(genDoc(g))
 		}
+		if chance(0.08) {
+			doc, patch = sharedSubtreePair(g)
+		}
 		if any && chance(0.1) {
 			patch = mutate(patch)
 		}
